@@ -210,21 +210,26 @@ def run(ck, prog, tier, load):
     # structure: result may be true only under payload.is_some(); equals !drain; drain non-false only under is_dropped with value payload_drainable
     ok1 = ok2 = ok3 = True
     n_r = 0
+    DR = set()  # the bool local whose negation is the result ("drain instead of close")
     for d in sc.defs().get(0, []):
         e = sc.def_expr(d, 6)
         if e[:3] == ("const", None, 0):
             continue
         n_r += 1
         ok1 = ok1 and any(c[0] == "call" and rx(r"Option::is_some$").search(c[1] or "") and lab is True for c, lab, a in sc.guards(d[1]))
-        ok2 = ok2 and e[0] == "un" and e[1] == "Not" and is_local_named(e[2], "drain_payload")
-    dl = [i for i, l in enumerate(sc.locals) if l.get("n") == "drain_payload"]
+        neg = e[0] == "un" and e[1] == "Not" and e[2][0] in ("var", "phi") and sc.lty(e[2][1]) == "bool"
+        ok2 = ok2 and neg
+        if neg:
+            DR.add(e[2][1])
+    dl = sorted(DR)
+    boolp = set(args_of_type(sc, r"^bool$"))
     for l in dl:
         for d in sc.defs().get(l, []):
             e = sc.def_expr(d, 6)
             if e[:3] == ("const", None, 0):
                 continue
             g = any(c[0] == "call" and rx(r"Option::is_some_and$").search(c[1] or "") and lab is True for c, lab, a in sc.guards(d[1]))
-            ok3 = ok3 and g and is_local_named(e, "payload_drainable")
+            ok3 = ok3 and g and e[0] == "arg" and e[1] in boolp
     clo = [c for c in prog.with_closures(sc) if c is not sc]
     ok4 = any(True for c in clo for _ in c.calls(r"PayloadSender::is_dropped$"))
     ck.ob("C03-c.should-close-structure", "should_close_for_unread_payload", n_r >= 1 and ok1 and ok2 and ok3 and ok4 and bool(dl), sc, None,
